@@ -65,7 +65,8 @@ def run(ctx, out):
                 "no job completing) for trees of 300 and 1500 one-block files and 3-block files, W in {1,2,4,16}; "
                 "(b) parfile peak <= 2W (duplicated descriptors count), with --fsync every flush is held 40 ms by the supervisor, then also "
                 "parblock <= 2(128+W+1); (c) unsupervised runs of 3000-file trees (thorough: 30000) under RLIMIT_NOFILE=1024 "
-                "with 1..64 workers, both drivers, must exit 0 with a complete destination; non-trivial = all; distinct = config")
+                "with 1..64 workers, both drivers, must exit 0 with a complete destination; (d) chains of 200 nested directories (supervised: <= 16 directory descriptors at once) "
+                "and of 1100 (deeper than the limit of 1024) copy with exit 0; non-trivial = all; distinct = config")
     configs = [(300, 1, 4), (1500, 1, 4), (300, 1, 1), (300, 1, 16), (400, 3, 2)]
     if not quick:
         configs += [(3000, 1, 64), (3000, 1, 8), (1000, 3, 4), (1000, 5, 16), (6000, 1, 2)]
@@ -180,3 +181,58 @@ def run(ctx, out):
             out.violation("%d-file tree with %s, %d workers under RLIMIT_NOFILE=1024: exit %d, %d files copied (%s)"
                           % (big, driver, w, code, ncopied, err[-200:]), dict(argv=argv[1:], files=big))
     shutil.rmtree(d, ignore_errors=True)
+    # (d) `a tree of any size` is also a tree of any DEPTH: a chain of nested directories, one small file per level.  Directory
+    # streams are descriptors too: their number must not grow with the depth either (supervised, depth 200: at most 16 open at
+    # once), and a chain deeper than the descriptor limit (1100 levels under RLIMIT_NOFILE=1024) copies with exit 0
+    def make_chain(root, depth):
+        p = root
+        os.makedirs(p)
+        for i in range(depth):
+            p = os.path.join(p, "n")
+            os.mkdir(p)
+            with open(os.path.join(p, "f"), "wb") as f:
+                f.write(b"level %d" % i)
+
+    def open_dirs_peak(run, root):
+        fds, peak = {}, 0
+        for e in sorted([e for e in run.trace if e.get("ret") is not None], key=lambda e: e["x"]):
+            if e["sys"] in ("openat", "open") and e["ret"] >= 0 and e["p1"].startswith(root):
+                flags = e["a"][2] if e["sys"] == "openat" else e["a"][1]
+                if flags & 0o200000:
+                    fds[e["ret"]] = e["p1"]
+                    peak = max(peak, len(fds))
+            elif e["sys"] == "close" and e["a"][0] in fds:
+                del fds[e["a"][0]]
+        return peak
+    for driver in ("parfile", "parblock"):
+        d = os.path.join(d0, "chain200_" + driver)
+        os.makedirs(d)
+        make_chain(os.path.join(d, "src"), 200)
+        argv = [ctx.bins["xcp"], "-r", "--driver", driver, "-w", "4", "src", "dst"]
+        r = xcp.run_supervised(sup, argv, d, d, tag="c", timeout_ms=120000, nofile=1024)
+        out.case(("chain", driver, 200), True)
+        out.count("deep_chain_runs")
+        pk = open_dirs_peak(r, d)
+        if r.exit != 0:
+            out.violation("a chain of 200 nested directories failed to copy (exit %d): %s" % (r.exit, r.stderr[-200:]), dict(argv=argv[1:], depth=200))
+        elif pk > 16:
+            out.violation("%d directory descriptors open at once while walking a chain of 200 nested directories: the number grows with "
+                          "the depth of the tree" % pk, dict(argv=argv[1:], depth=200, open_directories_peak=pk))
+        subprocess.run(["rm", "-rf", d], capture_output=True)
+        d = os.path.join(d0, "chain1100_" + driver)
+        os.makedirs(d)
+        make_chain(os.path.join(d, "src"), 1100)
+        argv = [ctx.bins["xcp"], "-r", "--driver", driver, "-w", "4", "src", "dst"]
+        try:
+            p = subprocess.run(argv, cwd=d, capture_output=True, timeout=600, env=dict(os.environ, RUST_BACKTRACE="0"),
+                               preexec_fn=lambda: resource.setrlimit(resource.RLIMIT_NOFILE, (1024, 1024)))
+            code, err = p.returncode, p.stderr.decode("utf-8", "replace")
+        except subprocess.TimeoutExpired:
+            code, err = 124, "timeout"
+        out.case(("chain-nofile1024", driver, 1100), True)
+        out.count("deep_chain_runs")
+        ncopied = int(subprocess.run("find dst -type f | wc -l", shell=True, cwd=d, capture_output=True, text=True).stdout.strip() or 0)
+        if code != 0 or ncopied != 1100:
+            out.violation("a chain of 1100 nested directories with %s under RLIMIT_NOFILE=1024: exit %d, %d of 1100 files copied (%s)"
+                          % (driver, code, ncopied, err[-200:]), dict(argv=argv[1:], depth=1100))
+        subprocess.run(["rm", "-rf", d], capture_output=True)
